@@ -128,8 +128,38 @@ pub fn c14_queries(s: &Shipped) -> (Vec<String>, Vec<usize>) {
             }
         }
     }
+    // phrases whose words belong to *different* facts (no fact carries both): which fact wins is
+    // decided by the ranking statistics of the whole index, so anything that changes the index
+    // contents without changing any single fact (duplicated documents, a lost asset) shows here
+    let tokens: Vec<&String> = freq.keys().collect();
+    let mut cross: Vec<String> = Vec::new();
+    if tokens.len() > 4 {
+        let n = tokens.len();
+        for i in 0..n {
+            for j in [(i * 7 + 13) % n, (i * 31 + 5) % n] {
+                if i == j {
+                    continue;
+                }
+                let (a, b) = (tokens[i].as_str(), tokens[j].as_str());
+                if s.constants.iter().any(|c| c.tokens.iter().any(|t| t.as_ref() == a) && c.tokens.iter().any(|t| t.as_ref() == b)) {
+                    continue;
+                }
+                if let Some(f) = typed_forms(&[a, b]).into_iter().next() {
+                    if set.insert(f.clone()) {
+                        cross.push(f);
+                    }
+                }
+            }
+        }
+    }
     let all: Vec<String> = set.into_iter().collect();
     let mut keep = Vec::new();
+    // every twelfth cross-fact phrase is always asked, also in the quick tier
+    for f in cross.iter().step_by(12) {
+        if let Ok(i) = all.binary_search(f) {
+            keep.push(i);
+        }
+    }
     // exact ties: the same own words carried by several constants
     for (p, n) in &own {
         if *n > 1 {
